@@ -58,6 +58,11 @@ CLAIMED = {
    note="Trusted: Coq kernel + vm_compute; introspection extractors; scan methods run unbound on stub facades with real structures (whole-facade construction is C11). One genuine defect repaired (fix 9087322: hash-seed dependent order in the threaded facade). Closed under the global context.",
    technique="Rocq proof (list filter / flat_map / NoDup lemmas) over generated tables + subprocess differential runs across hash seeds",
    design="3/C12"),
+ "C11": dict(
+   text="Finite and complete over combinations, universal over blocks: Coq computes (vm_compute over the regenerated tables) that all 895 platform x config x log combinations satisfy the facade's construction requirements (combo_ready: TempUnits, the three temperature items, EconActive, every output / error key / user demand and the state item of every exposable device exist and are addressable) except exactly the 18 listed (K3; tightness also proved), and proves that on a ready combination, for ANY 1024-byte block, every item the facade reads decodes without raising, out-of-range enum values read 'Unknown', any watercare mode renders, any reminder list yields proper descriptions. Correspondence: the REAL GeckoAsyncFacade and GeckoFacade are constructed on all 895 combinations (success compared with combo_ready) and every public read-only member of facade and devices is evaluated on zero / all-ones / random / small-value / shipped-snapshot blocks; watercare rendering for all 256 bytes; reminder lists.",
+   note="Trusted: Coq kernel + vm_compute; table extractor; facade construction harness (no network, tasks/threads not started). Partial: combo_ready <-> real construction is checked exhaustively on the 895 combinations rather than proved from a model of the constructors; member evaluation on non-zero blocks covers a rotating third of the combinations in the quick tier. Known findings K3 (18 combinations) are an explicit exception list. One defect repaired (fix 4f27235).",
+   technique="Rocq: finite vm_compute obligations over regenerated tables + general totality lemmas (get_value_total) + exhaustive differential construction of the real facades",
+   design="3/C11"),
 }
 
 REASON_PENDING = "check not built yet in this round (model and correspondence under construction; see DESIGN.md section 8)"
